@@ -45,7 +45,7 @@ NOTES = {
  "C01": "covering arrays (pairwise quick / 3-wise thorough) + random points; extra content classes `break-even` (lengths around the point where 1 + compressed = input) and `litruns` (RLE literal-count boundaries) added after seeded changes C01-m1 / C03-m2",
  "C02": "reference in Python (lib/refmpq.py); mismatches are re-extracted under named deviation models (full-path key, transformed dword tail) so that known deviations stay diagnosable and everything else stays strict; reference reader checks `compressed_size` == end of last sector (after C02-m1); direction B includes aligned, path-less, incompressible encrypted single-unit files larger than a sector (after C02-m3); quick runs half of the 144-configuration product chosen by the seed",
  "C03": "added: a form that differs from the input must be strictly shorter (after C03-m1); `decompress_secure` is also called with file names ending in .mpq/.zip/.rar/.7z/.txt (after C03-m3); random (length, class) points and break-even inputs",
- "C04": "the independent reference lives in the Rust harness (harness/vh-mpq/src/lib.rs) rather than Python — same independence, no data hand-over; Jenkins fold direction (upper/lower) accepted either way if consistent (the statement does not fix it; observed: upper); BET hashes are also read back from built V3/V4 archives; the Miri slice on the cipher tail paths was not built (no unsafe there; the oracle already covers every length 0..17 x 77 keys)",
+ "C04": "the independent reference lives in the Rust harness (harness/vh-mpq/src/lib.rs) rather than Python — same independence, no data hand-over; Jenkins fold direction (upper/lower) accepted either way if consistent (the statement does not fix it; observed: upper); BET hashes are also read back from built V3/V4 archives; thorough additionally interprets the table case and 16 cipher-key cases (lengths 0..17, byte-wrapper tails) under Miri",
  "C05": "each batch of mutants runs in a forked child of the worker, so aborts are attributed to the exact mutant; signatures are keyed by in-repo site (not entry point); requests >= 256 MiB are refused by the counting allocator; MPQ seeds from ArchiveBuilder and from lib/refmpq.py (deleted markers, user-data prefix, PATCH_FILE entries)",
  "C06": "read-your-writes is observed, not judged; five history-level trigger predicates carry the known findings; refused additions count towards block-table growth; opens and drops are trapped",
  "C07": "sources include zero-length, multi-sector, mixed-encryption and break-even files; CLI `mpq rebuild/compare` sampling moved to C20",
